@@ -124,8 +124,10 @@ pub fn apply_layout(text: &[u8], ops: &[LayoutOp]) -> Vec<u8> {
     t
 }
 
-const WS: [u8; 4] = [b' ', b'\t', b'\r', b'\n'];
-const UNICODE_WS: [&str; 5] = ["\u{85}", "\u{a0}", "\u{2003}", "\u{2028}", "\u{3000}"];
+// form feed is ASCII whitespace for every definition in use (C isspace, char::is_whitespace,
+// u8::is_ascii_whitespace); vertical tab is not one for the last, so it goes with the open class
+const WS: [u8; 5] = [b' ', b'\t', b'\r', b'\n', 0x0c];
+const UNICODE_WS: [&str; 6] = ["\u{85}", "\u{a0}", "\u{2003}", "\u{2028}", "\u{3000}", "\u{0b}"];
 
 pub fn gen_layout(rng: &mut Rng, text_len: usize) -> Vec<LayoutOp> {
     let mut ops = Vec::new();
@@ -174,7 +176,7 @@ pub fn gen_layout(rng: &mut Rng, text_len: usize) -> Vec<LayoutOp> {
         for _ in 0..rng.range(1, 3) {
             ops.push(LayoutOp::InsertUnicodeWs {
                 at: rng.below(text_len as u64 + 8) as u32,
-                which: rng.below(5) as u8,
+                which: rng.below(UNICODE_WS.len() as u64) as u8,
             });
         }
     }
@@ -673,7 +675,9 @@ pub struct HexPlan {
     pub seeded: usize,
 }
 
-pub const ENUMERATED: usize = 65 + 256;
+/// lengths around the buffer sizes a reader or writer is likely to use (the property's own bound is 4096)
+pub const BOUNDARY_LENGTHS: [usize; 15] = [1023, 1024, 1025, 2047, 2048, 2049, 4095, 4096, 4097, 8191, 8192, 8193, 65535, 65536, 65537];
+pub const ENUMERATED: usize = 65 + 256 + BOUNDARY_LENGTHS.len();
 
 fn gen_common(rng: &mut Rng, data: Vec<u8>) -> HexCase {
     let enc_len = data.len();
@@ -703,10 +707,10 @@ fn gen_common(rng: &mut Rng, data: Vec<u8>) -> HexCase {
         _ => {
             // one hard read error in one of the two stages
             if rng.coin() {
-                let calls = (c.enc_r.len() + 2).min(8);
+                let calls = iogen::hard_error_window(rng, c.enc_r.len());
                 c.enc_r = with_hard_error(rng, std::mem::take(&mut c.enc_r), calls);
             } else {
-                let calls = (c.dec_r.len() + 2).min(8);
+                let calls = iogen::hard_error_window(rng, c.dec_r.len());
                 c.dec_r = with_hard_error(rng, std::mem::take(&mut c.dec_r), calls);
             }
         }
@@ -726,6 +730,14 @@ impl crate::framework::Plan for HexPlan {
             // every length 0..=64, fixed content, seed-independent plans
             let mut rng = Rng::new(0xC19_0000 + idx as u64);
             let data: Vec<u8> = (0..idx).map(|i| (i * 37 + idx) as u8).collect();
+            let mut c = gen_common(&mut rng, data);
+            c.malformed = None;
+            c
+        } else if idx >= 65 + 256 && idx < ENUMERATED {
+            // lengths at buffer-size boundaries, seed-independent content and plans
+            let n = BOUNDARY_LENGTHS[idx - 65 - 256];
+            let mut rng = Rng::new(0xC19_2000 + idx as u64);
+            let data: Vec<u8> = (0..n).map(|i| (i * 131 + (i >> 8) * 7 + n) as u8).collect();
             let mut c = gen_common(&mut rng, data);
             c.malformed = None;
             c
@@ -775,7 +787,7 @@ impl crate::framework::Plan for HexPlan {
         super::AnyCase::Hex(c)
     }
     fn rule(&self) -> String {
-        "Case i is a pure function of (VERIF_SEED, i): indices 0..65 are every input length 0..=64, 65..321 every single byte value, \
+        "Case i is a pure function of (VERIF_SEED, i): indices 0..65 are every input length 0..=64, 65..321 every single byte value, 321..336 lengths at buffer-size boundaries (1023..65537), \
          the rest are seeded (length 0..=4096, content, whitespace/case/prefix re-layout or one malformed variant, stdin vs file for \
          each stage, a read-delivery plan and a write-acceptance plan per stage: chunking, EINTR, at most one hard read error). \
          A case is one encode|decode pipeline (2 simulated processes) or one malformed decode. distinct_nontrivial counts distinct \
@@ -787,7 +799,7 @@ impl crate::framework::Plan for HexPlan {
         vec![
             "stdin and input files are regular files delivered through the interposed read(2); pipes/ttys differ only in the short-read/EINTR behaviour that the plan simulates".into(),
             "hard write errors (EPIPE, ENOSPC) are not injected: the property says nothing about output failure".into(),
-            "only ASCII whitespace (space, tab, CR, LF) is generated for re-layout; 0X is not treated as the documented prefix".into(),
+            "ASCII whitespace space, tab, CR, LF, FF must be ignored; vertical tab and non-ASCII whitespace are only held to delivery independence; 0X is not treated as the documented prefix".into(),
             "the layout/case/prefix clauses are pure input properties: they are sampled by this workload, not decided by simulation".into(),
         ]
     }
